@@ -142,3 +142,74 @@ def query_s(max_leaves=8, scored_leaves=False, with_not=True):
         return st.one_of(*opts)
 
     return st.recursive(leaf, extend, max_leaves=max_leaves)
+
+
+def rewrite_query_s(max_leaves=8):
+    """C15 grammar: the C01 grammar plus NullQuery, unfielded Every, empty/singleton compounds, duplicate clauses,
+    0/1-word phrases and wildcard patterns with '['."""
+    base = leaf_s(False)
+    extra = st.one_of(
+        st.just({"op": "null"}),
+        st.just({"op": "every", "f": None}),
+        st.builds(lambda ws: {"op": "phrase", "f": "t", "words": ws, "slop": 1}, st.lists(word_s, max_size=1)),
+        st.builds(lambda x: {"op": "wildcard", "f": "t", "x": x}, st.sampled_from(["a[bc]", "[ab]b", "a[b]*", "[a-b]?"])),
+        st.builds(lambda f: {"op": "every", "f": f}, st.sampled_from(["t", "w", "n"])),
+    )
+    leaf = st.one_of(base, base, extra, span_s())
+
+    def extend(children):
+        lst = st.lists(children, min_size=0, max_size=4)
+        dup = st.builds(lambda c, n: [c] * n, children, st.integers(2, 3))
+        # sibling clauses on one field (Every(f) next to (negated) clauses on f, ranges next to ranges)
+        tleaf = st.one_of(
+            st.just({"op": "every", "f": "t"}),
+            st.builds(lambda x: {"op": "term", "f": "t", "x": x, "boost": 1.0}, word_s),
+            st.builds(lambda x: {"op": "not", "q": {"op": "term", "f": "t", "x": x, "boost": 1.0}}, word_s),
+            st.builds(lambda x: {"op": "prefix", "f": "t", "x": x}, st.sampled_from(["a", "ab", "b"])),
+            st.builds(lambda s, e: {"op": "trange", "f": "t", "start": s, "end": e, "se": False, "ee": False},
+                      st.sampled_from([None, "a", "ab", "b"]), st.sampled_from([None, "abc", "b", "c"])),
+        )
+        same_field = st.lists(tleaf, min_size=2, max_size=3)
+        kids = st.one_of(lst, lst, dup, same_field)
+        return st.one_of(
+            st.builds(lambda qs, b: {"op": "and", "qs": qs, "boost": b}, kids, boost_s),
+            st.builds(lambda qs, b: {"op": "or", "qs": qs, "boost": b}, kids, boost_s),
+            st.builds(lambda qs: {"op": "dismax", "qs": qs, "tiebreak": 0.0}, kids),
+            st.builds(lambda a, b: {"op": "andnot", "a": a, "b": b}, children, children),
+            st.builds(lambda a, b: {"op": "andmaybe", "a": a, "b": b}, children, children),
+            st.builds(lambda a, b: {"op": "require", "a": a, "b": b}, children, children),
+            st.builds(lambda q: {"op": "not", "q": q}, children),
+            st.builds(lambda q, s: {"op": "const", "q": q, "score": s}, children, st.sampled_from([1.0, 2.5])),
+        )
+
+    return st.recursive(leaf, extend, max_leaves=max_leaves)
+
+
+def span_s():
+    """positional / span query trees over Term leaves of the positional field t"""
+    # mostly the common words, so that the terms actually occur near each other in documents
+    t = st.builds(lambda x: {"op": "term", "f": "t", "x": x, "boost": 1.0},
+                  st.one_of(st.sampled_from(COMMON), st.sampled_from(COMMON), word_s))
+    pair = st.tuples(t, t)
+    sl = st.sampled_from([1, 1, 2, 3])
+    md = st.sampled_from([1, 1, 2, 3])
+    ob = st.booleans()
+    basic = st.one_of(
+        st.builds(lambda qs, s_, o, m: {"op": "span_near2", "qs": qs, "slop": max(s_, m), "ordered": o, "mindist": m},
+                  st.lists(t, min_size=2, max_size=3), sl, ob, md),
+        st.builds(lambda p, s_, o, m: {"op": "span_near", "a": p[0], "b": p[1], "slop": max(s_, m), "ordered": o, "mindist": m},
+                  pair, sl, ob, md),
+        st.builds(lambda q, l: {"op": "span_first", "q": q, "limit": l}, t, st.integers(0, 3)),
+        st.builds(lambda qs: {"op": "span_or", "qs": qs}, st.lists(t, min_size=2, max_size=3)),
+        st.builds(lambda p: {"op": "span_before", "a": p[0], "b": p[1]}, pair),
+        st.builds(lambda qs, s_, o: {"op": "sequence", "qs": qs, "slop": s_, "ordered": o, "boost": 1.0},
+                  st.lists(t, min_size=2, max_size=3), sl, ob),
+        st.builds(lambda qs: {"op": "ordered", "qs": qs, "boost": 1.0}, st.lists(t, min_size=2, max_size=3)),
+        st.builds(lambda x: {"op": "variations", "f": "t", "x": x, "boost": 1.0}, word_s),
+    )
+    nested = st.one_of(
+        st.builds(lambda a, b: {"op": "span_not", "a": a, "b": b}, st.one_of(t, basic), t),
+        st.builds(lambda a, b: {"op": "span_contains", "a": a, "b": b}, basic, t),
+        st.builds(lambda q, l: {"op": "span_first", "q": q, "limit": l}, basic, st.integers(0, 3)),
+    )
+    return st.one_of(basic, basic, nested)
